@@ -1,5 +1,27 @@
 # Registered checks: property id -> harness files, entries, bounds.  See DESIGN.md section 3.
 SPECS = {
+ "C08": {
+  "explanation": "Full stack on the HDF5 model: on a fully linked file one call from a menu of 46 calls the API must reject (each class of invalid argument the property names) is attempted; if it throws, the complete observation of the file (every public getter, data included) must equal the observation taken before the call, also after close+reopen.",
+  "bounds": {"rejected_call_menu": 46, "file_state": "the fixed fully linked world of harness/world.hpp", "prefix_history": 0},
+  "outside": ["file states other than the world file (the front-end argument checks are state-independent; back-end ones are exercised on this state)", "rejections caused by libhdf5 I/O errors"],
+  "assumptions": ["libhdf5 replaced by h5model", "unit grammar (boost::regex) replaced by a hand-written matcher of the same expressions"],
+  "harnesses": [{"file": "C08_reject.cpp", "entries": [{"entry": "vh_c08_reject"}, {"entry": "vh_c08_reject_reopen"}]}]},
+ "C02": {
+  "explanation": "Full stack on the HDF5 model: a fully linked file (blocks, arrays with every dimension kind, data frame, tag, multi-tag, features, group, source and section trees, properties, metadata/section links) is mutated by a bounded history from a 34-entry menu with symbolic payloads, observed through every public getter, closed, reopened (ReadOnly and ReadWrite) and observed again; the two observations must be byte-identical.",
+  "bounds": {"quick": {"history_steps": 1, "menu": 34, "payload": "symbolic doubles"}, "thorough": {"history_steps": 2, "intermediate_reopen": True}},
+  "outside": ["that libhdf5 persists what it was given (bytes on disk, other processes)", "histories longer than the bound", "nesting depth > 4"],
+  "assumptions": ["libhdf5 replaced by h5model; close() destroys every nix object, reopen builds fresh ones on the model's file table"],
+  "harnesses": [{"file": "C02_reopen.cpp", "defines": {"quick": ["-DVH_STEPS=1"], "thorough": ["-DVH_STEPS=2"]},
+     "entries": [{"entry": "vh_c02_reopen_ro"}, {"entry": "vh_c02_reopen_rw"}]}]},
+ "C03": {
+  "explanation": "Full stack (front-end + backend/hdf5 + h5x) on the HDF5 model: bounded create/delete histories per container kind, checked after every step and after close+reopen against a reference list in creation order.",
+  "bounds": {"quick": {"history_steps": 3, "names": ["a", "b", "A", "a ", "..", "UUID-shaped", "", "a/b", "1 symbolic char in {a,b,c,/}"], "containers": 11},
+             "thorough": {"history_steps": 4}},
+  "outside": ["names longer than the candidates / non-ASCII UTF-8", "HDF5's own creation-order index (modelled)", "features, tag references, group members, entity sources as containers (covered by C04/C02 harnesses)"],
+  "assumptions": ["libhdf5 replaced by h5model", "createId replaced by a counter-based UUID generator (ids unique by construction)"],
+  "harnesses": [{"file": "C03_names.cpp", "defines": {"quick": ["-DVH_STEPS=3"], "thorough": ["-DVH_STEPS=4"]},
+     "entries": [{"entry": e} for e in ("vh_c03_blocks", "vh_c03_file_sections", "vh_c03_sub_sections", "vh_c03_properties", "vh_c03_block_sources", "vh_c03_sub_sources",
+                                         "vh_c03_data_arrays", "vh_c03_tags", "vh_c03_multi_tags", "vh_c03_groups", "vh_c03_data_frames")]}]},
  "C10": {
   "explanation": "K: FormatVersion operators with six/nine symbolic 32-bit ints (complete over all 2^96 pairs). S: real File::open -> FileHDF5::FileHDF5 -> checkHeader on the HDF5 model; the file's header (format string, version triple, id) is symbolic.",
   "bounds": {"version_components": "full 32-bit range, symbolic", "modes": ["ReadOnly", "ReadWrite"], "force": [False, True], "format": ["nix", "other", "missing"], "version/id attribute": "present or missing"},
